@@ -705,6 +705,33 @@ struct BoxWorld {
         if (acc) {
           got = true;
           on_win(di, &*acc, quiet, me);
+          // what callers do with a winning accessor (derived from the deposit number, so no choice is consumed): keep it,
+          // move-construct it elsewhere (a lambda capture, a container), move-assign it, or release it early by
+          // assigning an empty one. The slot must go back to the box exactly once whichever handle dies last.
+          switch ((di + (size_t)d.id.value) % 4) {
+            case 1: {
+              decltype(acc) moved(std::move(acc));
+              if (!moved || &*moved == nullptr) dsched::fail("one-taker", "a move-constructed accessor of deposit #%zu is empty", di);
+              if (acc) dsched::fail("one-taker", "the moved-from accessor of deposit #%zu still designates the item", di);
+              dsched::label("accessor_move_constructed");
+              break;
+            }
+            case 2: {
+              decltype(acc) other;
+              other = std::move(acc);
+              if (!other) dsched::fail("one-taker", "a move-assigned accessor of deposit #%zu is empty", di);
+              if (acc) dsched::fail("one-taker", "the moved-from accessor of deposit #%zu still designates the item", di);
+              dsched::label("accessor_move_assigned");
+              break;
+            }
+            case 3: {
+              auto holder = [a = std::move(acc)]() { return (bool)a; };
+              if (!holder()) dsched::fail("one-taker", "an accessor of deposit #%zu moved into a closure is empty", di);
+              dsched::label("accessor_moved_into_closure");
+              break;
+            }
+            default: break;
+          }
         }
       }
     }
